@@ -46,15 +46,22 @@ func main() {
 	}
 }
 
-const tieRule = "every discovered Get/Update/Pull triple, Get/Pull pair and keyed triple of every server row, through WrapApi(router(WrapApi(server))): " +
-	"random register sessions (full Get; Update with random payload/extras/update mask or a model-level write for pairs; Get with nested read masks; Pull with read mask and updates_only, " +
-	"at most 2 open; cancel), keyed sessions (Create/Update/Get/Pull/Delete over up to 3 ids plus ids that do not exist), update-while-subscribing sessions (gap: deterministic through the " +
-	"beforeListen yield point; race: by timing) and tween sessions (servers with a Tween field); the observation trace is fed to the Lean register-server model run as an acceptor " +
-	"(driverC14) and its verdict per observation is compared with the independent Go monitor's; non-trivial = a session with more than 6 observations; distinct = distinct (triple, kind, session)"
+const tieRule = "every discovered Get/Update/Pull triple, Get/Pull pair and keyed triple of every server row (default constructor, plus configured variants: initial values, presets), " +
+	"through WrapApi(router(WrapApi(server))): random register sessions (full Get; Update with random payload/extras/top-level or nested update mask, or a model-level write for pairs; " +
+	"Get with nested read masks followed by a full Get; Pull with read mask and updates_only, at most 2 open; cancel; odd sessions cap repeated message fields of payloads at one element), " +
+	"mask sessions (every single-path read mask of the resource's descriptor below 3 levels, up to the step budget, plus two-path masks, through Get and as Pull seeds), " +
+	"keyed sessions (Create/Update/Get/Pull/Delete over up to 3 ids plus ids that do not exist), update-while-subscribing sessions (gap: deterministic through the " +
+	"beforeListen yield point; race: by timing), tween sessions (servers with a Tween field): the observation trace is fed to the Lean register-server model run as an acceptor " +
+	"(driverC14) and its verdict per observation is compared with the independent Go monitor's; composite sessions (registers composed of collection items, discovered by shape and a probe): " +
+	"the Lean composed-register model runs as a SIMULATOR and its predicted response listing and per-stream message bursts are compared with what the stack delivered; " +
+	"non-trivial = a session with more than 6 observations; distinct = distinct (row, triple, kind, session)"
 
 const monRule = "the five statements of the property evaluated directly on the observations with proto.Equal and an own projection: Update response = next unmasked Get; " +
-	"masked Get = projection; Pull seed = current value unless updates_only; every value-changing successful Update appears on every open stream with the " +
-	"response's (projected) value and the request's name, nothing else appears; a rejected Update leaves Get unchanged and emits nothing; panics are violations"
+	"masked Get = projection, and a read never changes what the next full Get returns; Pull seed = current value unless updates_only; every value-changing successful Update appears on every open stream with the " +
+	"response's (projected) value and the request's name, nothing else appears; a rejected Update leaves Get unchanged and emits nothing; panics are violations. " +
+	"Stream verdicts of a session that made a multi-item write (two or more items in the payload or changed in the response) while a stream was open carry /after-multi-item-write. " +
+	"Composite sessions: an own fold over a plain map predicts the response (only the written items change) and, per stream, the exact burst (one composition per item write, equal neighbours suppressed; " +
+	"updates-only streams compose from the whole collection)"
 
 func sessionsOf(f lib.Flags) int { return f.N(24, 500) }
 
